@@ -1789,3 +1789,6 @@ M("c10-multi-forcedelete-skips-name-check", ["C10"], {"C10": ["R10.10"]}, "backe
 	}
 """, """func (db *MultiBucketBackend) ForceDeleteBucket(name string) error {
 """)
+
+# ---------------------------------------------------------------- F30
+REVERT("f30-revert-directory-is-not-a-key", ["C02"], {"C02": ["R02.9"]}, "0024-fix-deleting-a-key-that-is-only-a-directory-on-disk-.patch")
